@@ -54,4 +54,12 @@ NOTES['C18'] = {'technique': 'Lean 4 proof over a transcription of sketch.go (mi
             'Tie: UNIT-sketch reproduces the real table digest and size after every call (saturation, resets, resizes, non-power-of-two capacities); spread/rehash are translated from the source.',
     'note': 'Trusted: Lean kernel; translator; the white-box differential (bounded by generated sequences; tables up to 8192 words). Partial: the under-count bound over whole recording sequences and the halving step are proved at nibble level (Proofs.Nibble), not yet lifted to the BitVec table model; maphash itself is a parameter.'}
 
+NOTES['C13'] = {'technique': 'Lean 4 proof (per-level window/visit/tick lemmas of the timer wheel, race clause, order-preserving time map) + exact white-box differential + per-sweep oracle',
+    'engine': 'proof+unit-wheel+seq',
+    'text': 'Theorems for every tick size S, bucket count B, wheel time t, sweep time T and deadline: placement window, visit lemma (every tick in [tick t, tick T] has its bucket visited), unvisited buckets hold only future ticks, '
+            'tick-behind implies deadline-behind (nothing expired early), an already due deadline is scheduled for the current tick which the next sweep visits first (race clause), int64 -> wheel time is order preserving. '
+            'Tie: UNIT-wheel reproduces every bucket in link order after every call with constants reported by the code; oracle on every sweep; SEQ CleanUp oracle on the whole cache.',
+    'note': 'Trusted: Lean kernel; white-box differential bounded by generated sequences. PARTIAL: the lift of the level lemmas through the nested bucket loops of DeleteExpired (every due node is in the expired list, for all wheels) is not mechanised - it is checked by the oracle on every sweep of every run. '
+            'The interleaving of a write with maintenance is covered at wheel level (deadlines behind the wheel time) not with real goroutines; lossy read-buffer drops (reads that shorten deadlines) are excluded as the property states.'}
+
 NOT_APPLICABLE = {}
